@@ -98,6 +98,13 @@ def commutesWith (atol rtol : Rat) (a b : MOp) : Bool :=
   | [(ta, _)], [(tb, _)] => majoranaTermsCommute ta tb
   | _, _ => majEq atol rtol (mmul a b) (mmul b a)
 
+/-- exact-regime test for two Majorana dictionaries (evaluated by the driver per input): whenever
+numpy.isclose (either way; `|x| ≤ atol` for one-sided terms) calls the two coefficients of a term
+close, they are equal -/
+def majExactB (atol rtol : Rat) (X Y : MOp) : Bool :=
+  (Dict.keys X ++ Dict.keys Y).all fun t =>
+    !(majTermClose atol rtol X Y t) || decide (Dict.getD X t 0 = Dict.getD Y t 0)
+
 /-! ### structural predicates (nested loops as coded) -/
 
 /-- the two tests of `FermionOperator.is_normal_ordered` on the adjacent pair
@@ -216,6 +223,17 @@ def ioNormalTensors (n : Nat) (c : GQ) (one two : List GQ) : Tensors :=
 def isHermitianIO (tol : Rat) (n : Nat) (c : GQ) (one two : List GQ) : Bool :=
   tensorEq tol n (ioNormalTensors n c one two) n
     (ioNormalTensors n c.conj (hcOneBody n one) (hcTwoBody n two))
+
+/-- exact-regime test for the InteractionOperator branch (evaluated by the driver per input):
+entries of the two normal-ordered tensor families closer than the tolerance are equal -/
+def ioExactB (tol : Rat) (n : Nat) (c : GQ) (one two : List GQ) : Bool :=
+  let X := ioNormalTensors n c one two
+  let Y := ioNormalTensors n c.conj (hcOneBody n one) (hcTwoBody n two)
+  [([] : List Nat), [1, 0], [1, 1, 0, 0]].all fun k =>
+    (List.range (n * n * n * n + 1)).all fun i =>
+      let x := ((Dict.get? X k).getD []).getD i 0
+      let y := ((Dict.get? Y k).getD []).getD i 0
+      !(decide ((x - y).normSq < tol * tol)) || decide (x = y)
 
 def isHermitianQubit (tol : Rat) (a : Op) : Bool := isclose tol a (hcQubit a)
 def isHermitianQuad (tol : Rat) (a : Op) : Bool := isclose tol a (hcQuad a)
